@@ -335,6 +335,28 @@ pub fn run(rep: &mut Report) {
             }
         });
     }
+    // order independence over day numbers a power of two (and a century, and multiples of 2^16 days) apart: a memo keyed on a
+    // truncated or folded day number aliases such days
+    {
+        let d0 = days1900(2022, 3, 1);
+        let mut dd: Vec<i64> = vec![d0];
+        for k in 0..=21 {
+            dd.push(d0 + (1i64 << k));
+            dd.push(d0 - (1i64 << k));
+        }
+        for j in 1..=3 {
+            dd.push(d0 + j * 65_536);
+            dd.push(d0 + j * 36_525);
+            dd.push(d0 - j * 65_536);
+        }
+        let (lo, hi) = (days1900(1, 1, 2), days1900(9999, 12, 30));
+        dd.retain(|d| *d >= lo && *d <= hi);
+        dd.sort();
+        dd.dedup();
+        let nd2 = dd.len() as u64;
+        let lp = &leap;
+        crate::engine::order_pairs(rep, "c16.order[day-aliases]", nd2 * 2, |i, out| j_weekday(dd[(i % nd2) as usize], 43_200 * NS_S, [TimeScale::TAI, TimeScale::UTC][(i / nd2) as usize], lp, out));
+    }
     let depth = if q { 3 } else { 4 };
     let mut inits = vec![];
     for (k, d) in [-693_595i64, -36_525, -8, -1, 0, 1, 6, 25_567, 36_524, 42_735, 45_000, 2_958_463].iter().enumerate() {
